@@ -222,23 +222,44 @@ Proof.
   - fin H. split; [reflexivity | exact Hi].
 Qed.
 
-Lemma scan_items c ids : Forall obj_ok c -> map (scan_item_impl ids) c = map (scan_item O ids) (abs_col c).
+Lemma scan_pick_abs c ids : scan_pick (abs_col c) ids = smap_map abs_obj (scan_pick c ids).
 Proof.
-  intros HF. unfold abs_col, smap_map. rewrite map_map.
+  unfold scan_pick, smap_map. induction ids as [|i ids IH]; cbn; [reflexivity|].
+  rewrite absc_get. rewrite map_app, <- IH. destruct (get i c); reflexivity.
+Qed.
+
+Lemma scan_pick_ok c ids : Forall obj_ok c -> Forall obj_ok (scan_pick c ids).
+Proof.
+  intros HF. unfold scan_pick. induction ids as [|i ids IH]; cbn; [constructor|].
+  apply Forall_app. split; [|exact IH].
+  destruct (get i c) as [o|] eqn:E; [|constructor].
+  constructor; [exact (Forall_get obj_ok i c o HF E) | constructor].
+Qed.
+
+Lemma scan_items out nf l : Forall obj_ok l ->
+  map (scan_item_impl out nf) l = map (scan_item O out nf) (smap_map abs_obj l).
+Proof.
+  intros HF. unfold smap_map. rewrite map_map.
   apply map_ext_in. intros [i o] Hin. rewrite Forall_forall in HF. destruct (HF _ Hin) as [Hid _].
   cbn in Hid. unfold scan_item_impl, scan_item. cbn. rewrite Hid. reflexivity.
 Qed.
 
-Lemma scan_refines e s key ids : inv s -> refines e s (QScan key ids).
+Lemma scan_refines e s key cursor limit globs desc out nofields :
+  inv s -> refines e s (QScan key cursor limit globs desc out nofields).
 Proof.
-  intros Hi s' r u H. cbn [run_req] in H. fin H. rename H1 into H.
-  cbn [sexec]. rewrite abs_get.
-  destruct (get key s) as [c|] eqn:Ek; cbn [option_map].
-  - destruct (inv_get _ _ _ Hi Ek) as [_ [_ HcF]].
-    rewrite absc_length. destruct (length c <? 100)%nat; fin H.
-    + rewrite (scan_items c ids HcF). split; [reflexivity | exact Hi].
-    + split; [reflexivity | exact Hi].
-  - fin H. split; [reflexivity | exact Hi].
+  intros Hi s' r u H. cbn [run_req] in H. cbn [sexec]. rewrite abs_get.
+  destruct (get key s) as [c|] eqn:Ek; cbn [option_map]; [|fin H; split; [reflexivity | exact Hi]].
+  assert (HcF : Forall obj_ok c) by (exact (proj2 (proj2 (inv_get _ _ _ Hi Ek)))).
+  assert (Hk : keys (abs_col c) = keys c) by (unfold abs_col; apply keys_map).
+  rewrite Hk, absc_length.
+  destruct (out =? OUT_COUNT).
+  - destruct (glob_everything globs).
+    + fin H. split; [reflexivity | exact Hi].
+    + destruct (scan_select matchesb (keys c) cursor (if limit =? 0 then max_uint64 else limit) globs desc) as [ids cur].
+      fin H. split; [reflexivity | exact Hi].
+  - destruct (scan_select matchesb (keys c) cursor (Cursor.eff_limit limit) globs desc) as [ids cur].
+    fin H. rewrite scan_pick_abs. rewrite (scan_items out nofields _ (scan_pick_ok c ids HcF)).
+    split; [reflexivity | exact Hi].
 Qed.
 
 (* ---------- FSET ---------- *)
